@@ -1,5 +1,5 @@
 (* C04 — the cloud target size never exceeds min(max_nodes, cloud group maximum).  Theorems only. *)
-From Esc Require Import Examples proofs.ScanState proofs.ScanRun proofs.ScanRunTheorems.
+From Esc Require Import Examples proofs.ScanState proofs.ScanRun proofs.ScanRunTheorems proofs.ScanExact.
 
 (* every SetDesiredCapacity value v of a scan satisfies desired < v <= min(max_nodes, cloud max), and every fleet
    request d satisfies 0 < d and desired + d <= that bound, where desired is the provider's cached desired size as
@@ -46,3 +46,11 @@ Proof. vm_compute. reflexivity. Qed.
 Theorem c04_run_once : forall s, wf_groups s -> for_groups check_C04_group s (run_journals s) = true.
 Proof. exact run_passes_C04. Qed.
 Print Assumptions c04_run_once.
+
+(* a need that does not fit under min(max_nodes, cloud max) is clamped to land exactly on the bound, and with no headroom no request is made *)
+Theorem c04_lands_on_the_bound : forall now gdry api g a nodes pods,
+  let x := ctx_of now gdry api g a nodes pods in
+  NoDup (map n_name (x_nodes x)) ->
+  check_C04_exact x (r_calls (scan_of now gdry api g a nodes pods)) = true.
+Proof. exact group_passes_C04_exact. Qed.
+Print Assumptions c04_lands_on_the_bound.
